@@ -31,6 +31,16 @@ def findSep : Bytes → Option Nat
 
 def isDigit (b : UInt8) : Bool := ch '0' ≤ b && b ≤ ch '9'
 
+/-- bytes of a URI scheme: ASCII letters and digits, '+', '-', '.' -/
+def schemeByteOk (b : UInt8) : Bool :=
+  (ch 'a' ≤ b && b ≤ ch 'z') || (ch 'A' ≤ b && b ≤ ch 'Z') || isDigit b || b = ch '+' || b = ch '-' || b = ch '.'
+
+/-- `path.find("://").filter(…)`: the separator counts only right after a non-empty scheme -/
+def findScheme (path : Bytes) : Option Nat :=
+  match findSep path with
+  | some i => if 0 < i ∧ (path.take i).all schemeByteOk then some i else none
+  | none => none
+
 /-- `str::parse::<u16>()`: an optional '+', at least one digit, value at most 65535 -/
 def parseU16 (b : Bytes) : Option Nat :=
   let d := match b with
@@ -54,7 +64,7 @@ def recognizeHttp (method path : Bytes) : Option Proxy :=
     | none => path
   let path := if path.getLast? = some (ch '/') then path.dropLast else path
   -- authority of an absolute-form target
-  let auth : Option Bytes := match findSep path with
+  let auth : Option Bytes := match findScheme path with
     | some i =>
       let rest := path.drop (i + 3)
       match findByte (ch '/') rest with
